@@ -7,7 +7,7 @@ PID = 'C03'
 RULE = ('random pipelines (depth <= 3) and all nestings of depth <= 2 (thorough: 3) of group_by/roll/split/time_split/'
         'tee_map around stateful operators; a recording tap is inserted after EVERY operator, at the head and tail of '
         'every inner pipeline and of every tee branch, and every tapped trace is also compared with the model boundary trace (Boundaries.bnd_pipe); inputs include empty sources, empty groups after filtering, '
-        'window > stream, stride > window. Each tapped boundary trace is checked by a protocol monitor (create, items, '
+        'window > stream, stride > window; lifetimes of outer keys ended by a mux error that reaches the composite operator (key re-created or abandoned), judged at the boundaries where the error is still visible; every tee-free pipeline object is also subscribed twice and both subscriptions must emit the same. Each tapped boundary trace is checked by a protocol monitor (create, items, '
         'exactly one completion; no event for a non-live key; no two live keys with the same slot index; all keys '
         'completed at stream completion). non-trivial = >= 1 head or tee and >= 3 boundaries; distinct = distinct JSON')
 ASSUMPTIONS = ['input traces are well-formed; errors_handled fragment']
@@ -48,6 +48,36 @@ def generate(rng, tier):
         g = muxgen.Gen(rng, errors=0.15 if rng.random() < 0.2 else 0.0, fatal=0.1 if rng.random() < 0.15 else 0.0)
         ast, _ = g.pipe(muxgen.INT, 0, rng.randint(1, 3))
         cases.append({'ast': ast, 'trace': muxgen.gen_trace(rng, muxgen.INT)})
+    for i in range(n // 6):
+        # lifetimes of outer keys ENDED BY A MUX ERROR reaching a composite operator (rxsci's operators release a
+        # key on OnErrorMux as on OnCompletedMux); the key is created again later or never used again.  The error
+        # is dropped at the head of the inner pipeline and after the operator.  Outside the Coq model (there an
+        # error is an item that bypasses the operator): judged by the monitor alone.
+        inner = [['ignore']] + [rng.choice([['count', 1], ['to_list'], ['last'], ['scan', ['add'], muxgen.ev(0), 0, None],
+                                            ['take', 2], ['lag', 1], ['identity']])]
+        k = rng.choice(['group', 'roll', 'roll', 'rollc', 'split', 'time_split'])
+        if k == 'group':
+            hd = ['group', ['mod', rng.randint(2, 3)], inner]
+        elif k == 'roll':
+            w, st = rng.choice([(3, 1), (2, 3), (5, 2), (4, 3), (7, 2), (2, 1)])
+            hd = ['roll', w, st, inner]
+        elif k == 'rollc':
+            w = rng.randint(1, 3)
+            hd = ['roll', w, w, inner]
+        elif k == 'split':
+            hd = ['split', ['floordiv', rng.randint(2, 4)], inner]
+        else:
+            hd = ['time_split', ['id'], rng.choice([None, 4]), rng.choice([None, 2]), None, 1, inner]
+        ast = [hd, ['ignore']]
+        tr = muxgen.gen_trace(rng, muxgen.INT, nkeys=rng.choice([2, 3, 4]), sorted_=(k == 'time_split'))
+        out = []
+        for j, e in enumerate(tr):
+            later = any(f[1] == e[1] for f in tr[j + 1:])
+            if e[0] == 'd' and rng.random() < 0.6 and (not later or tr[j + 1:][[f[1] for f in tr[j + 1:]].index(e[1])][0] == 'c'):
+                out.append(['e', e[1], rng.choice([1, 2, 3])])
+            else:
+                out.append(e)
+        cases.append({'ast': ast, 'trace': out, 'errthru': True})
     if tier != 'search':
         for d in ([1, 2] if tier == 'quick' else [1, 2, 3]):
             for ast in nestings(rng, d):
@@ -65,6 +95,8 @@ def run_impl(case):
     obs = muxlib.run_mux(tapped, case['trace'], taps=True)
     obs['tap_names'] = {str(k): v for k, v in names.items()}
     plain_ast = muxprop.strip_taps(case['ast'])
+    if case.get('errthru'):
+        return obs
     if len(plain_ast) >= 2 and 'route' not in muxprop.kinds(plain_ast):
         # the same operators in two chained with_store scopes (own store, own topology each)
         try:
@@ -76,6 +108,8 @@ def run_impl(case):
                     k, str(ch)[:200], str(ref)[:200])
         except Exception as e:
             obs['chained'] = 'two chained with_store scopes raised %s: %s' % (type(e).__name__, str(e)[:100])
+    if len(case['trace']) % 2 == 0:
+        obs['resub'] = muxprop.resubscription_mismatch(case['ast'], case['trace'])
     lts = muxgen.lifetimes_of(case['trace'])
     if lts:
         try:
@@ -102,6 +136,8 @@ def bnd_mask(ast):
 
 def coq_term(case, obs):
     """the final output step by step, AND every tapped boundary against Boundaries.bnd_pipe (tap order = tap id)"""
+    if case.get('errthru'):
+        return 'MCSkip'
     base = muxlib.coq_muxcase(case['ast'], case['trace'], obs)
     if not base.startswith('MC '):
         return base
@@ -115,6 +151,13 @@ def coq_term(case, obs):
     return 'MCAnd (%s) (MCBnd %s %s %s %s)' % (base, muxlib.coq_pipe(case['ast']), muxlib.coq_trace(case['trace']), mask, taps)
 
 
+def errthru_judged(name):
+    """With errors reaching a composite operator only the boundaries at which the error is still visible are
+    judged: the head of the inner pipeline and the boundary right after the composite operator.  Downstream of an
+    rs.error.ignore the error that released a key is gone (the family ends lifetimes by errors on purpose)."""
+    return name.endswith(':head') or (name.count('/') == 0 and name.endswith('#0'))
+
+
 def oracle(case, obs):
     if 'raised' in obs:
         return None
@@ -122,8 +165,13 @@ def oracle(case, obs):
         return {'sig': 'protocol:entry-point', 'what': obs['entry']}
     if obs.get('chained'):
         return {'sig': 'protocol:chained-store-scopes', 'what': obs['chained']}
+    if obs.get('resub'):
+        return {'sig': 'protocol:re-subscription', 'what': obs['resub']}
+    monitor = muxprop.protocol_violation_with_errors if case.get('errthru') else muxprop.protocol_violation
     for tid, log in sorted(obs['taps'].items(), key=lambda kv: int(kv[0])):
-        v = muxprop.protocol_violation(log)
+        if case.get('errthru') and not errthru_judged(obs['tap_names'].get(tid, '')):
+            continue
+        v = monitor(log)
         if v:
             name = obs['tap_names'].get(tid, tid)
             return {'sig': 'protocol:' + name.split(':')[0].split('/')[-1].rstrip('0123456789'),
@@ -131,7 +179,7 @@ def oracle(case, obs):
     # the final output seen by the subscriber
     final = [o for st in obs['steps'] for o in st if o[0] in ('c', 'n', 'd', 'e', 'fatal')] + \
             [o for o in obs['final'] if o[0] == 'completed']
-    v = muxprop.protocol_violation(final)
+    v = None if case.get('errthru') else monitor(final)
     if v:
         return {'sig': 'protocol:output', 'what': 'final output: ' + v}
     return None
